@@ -52,11 +52,12 @@ const (
 	BCancelRestartOther
 	BCloseSelf
 	BCancelSelf
+	BDrainOther // reads everything the kernel holds for another object with non-blocking read(2)s on its descriptor
 	NumBehaviours
 )
 
 func (b Behaviour) String() string {
-	return [...]string{"none", "reissue", "cancel-other", "close-other", "cancel-restart-other", "close-self", "cancel-self"}[b]
+	return [...]string{"none", "reissue", "cancel-other", "close-other", "cancel-restart-other", "close-self", "cancel-self", "drain-other"}[b]
 }
 
 type Obj struct {
@@ -466,6 +467,12 @@ func (w *World) enter(op *Op, err error, n int) bool {
 		w.C.Failf("callback-after-close/"+op.Kind+"/"+op.O.Kind.String(), "op%d %s on %s: completion callback invoked after Close returned (err=%v)", op.ID, op.Kind, op.O, err)
 		return false
 	}
+	if errors.Is(err, sonicerrors.ErrWouldBlock) {
+		// "would block" is the condition an asynchronous operation exists to wait out: handing it to the completion
+		// callback means the operation was given up, not completed (the data that arrives next completes nothing)
+		w.C.Failf("completed-with-would-block/"+op.Kind+"/"+op.O.Kind.String(), "op%d %s on %s: the completion callback was invoked with %v (n=%d): the operation was neither performed nor failed, it was dropped", op.ID, op.Kind, op.O, err, n)
+		return false
+	}
 	if op.Dir == 0 && op.O.Rd == op {
 		op.O.Rd = nil
 	}
@@ -651,6 +658,16 @@ func (w *World) behave(op *Op) {
 		w.Close(op.O)
 	case BCancelSelf:
 		w.Cancel(op.O)
+	case BDrainOther:
+		// what another handler of the same batch may legitimately do: consume the data whose arrival made the
+		// target ready. The target's own handler then finds nothing and its operation has to stay in flight.
+		if t != nil && !t.Closed && !t.Closing && t.Raw >= 0 && (t.Kind == KConnDialed || t.Kind == KConnAccepted || t.Kind == KFifoR || t.Kind == KUDP) {
+			// (not an adapter: reading behind the back of the net.Conn it owns is not something a program can do through the
+			// API, and its handler would park in net.Conn.Read)
+			d, _, _ := rawpeer.Drain(t.Raw, 1<<20)
+			w.C.Logf("      handler of op%d drains %s: %d bytes taken", op.ID, t, len(d))
+			w.C.Count("drains_of_another_object_from_a_handler", 1)
+		}
 	}
 }
 
